@@ -145,12 +145,15 @@ def wf_edges(B):
     for F in B.faces:
         for i in range(len(F)):
             und.add(tuple(sorted((F[i], F[(i + 1) % len(F)]))))
-    if len(set(B.edges)) != len(B.edges):
-        return "duplicate edges"
-    if any(tuple(sorted(e)) != tuple(e) for e in B.edges):
-        return "edge not stored smallest index first"
+    # every row of the edge container is the (smallest, largest) row of a side of a face, every side has a row.
+    # (A side the caller declared twice keeps two rows: construction's known behaviour, C02 edge-list/duplicate-declared.)
+    for i, e in enumerate(B.edges):
+        if tuple(sorted(e)) != tuple(e):
+            return "edge row %d is %s, the face list gives the row %s (smallest vertex first)" % (i, tuple(e), tuple(sorted(e)))
+        if not all(isinstance(x, int) and 0 <= x < B.nv for x in e) or e[0] == e[1]:
+            return "edge row %d is %s: not an edge between two vertices of the mesh" % (i, tuple(e))
     if set(B.edges) != und:
-        return "edge list is not the set of sides of the faces"
+        return "the rows of the edge container %s are not the sides of the faces %s" % (sorted(set(B.edges) - und), sorted(und - set(B.edges)))
     return None
 
 
@@ -284,10 +287,10 @@ def expected(B, sort, q):
         return "exact", I(B.eid(*a))
     if name == "other_edge_end":
         E, V = a
-        x, y = B.edges[E]
+        x, y = sorted(B.edges[E])
         return "exact", I(y if V == x else (x if V == y else None))
     if name == "edge_to_vertices":
-        return "exact", L(B.edges[a[0]])
+        return "exact", L(sorted(B.edges[a[0]]))     # the (smallest, largest) row of that side
     if name == "boundary_edges":
         return "exact", L([i for i, (u, v) in enumerate(B.edges) if B.edge_on_border(u, v)])
     if name == "interior_edges":
